@@ -287,15 +287,9 @@ func ruleOrderServe(c *Ctx) {
 		"protocol initialisation dominates the print", "the handshake line can be printed before the protocol server was initialised")
 	chk("server.Init before go server.Serve", g.Dominates(si.init, si.serve), si.serve,
 		"Init dominates the go statement (single-threaded start-up, see R-GUARD)", "the server can be started before it was initialised")
-	syncOK := si.sync != nil
-	if syncOK {
-		seen := g.ReachAfter(si.print, func(x *Node) bool { return x == si.sync }, nil)
-		if _, r := seen[si.swap]; r {
-			syncOK = false
-		}
-	}
-	chk("print, then Sync, then the stdout swap", syncOK, si.swap,
-		"after the print every path to the os.Stdout swap passes os.Stdout.Sync()", "os.Stdout can be replaced by the pipe before the handshake line was flushed to the real stdout")
+	// (os.Stdout is an unbuffered *os.File: the line is on the real stdout when
+	// the print returns, so the Sync() that follows it is not required; what
+	// matters is that the print happens before stdout is swapped for the pipe)
 	_, back := g.ReachAfter(si.swap, nil, nil)[si.print]
 	chk("no print after the stdout swap", !back, si.swap, "the print is not reachable after the swap", "the handshake line can be printed after stdout was swapped for the pipe (it would go to the host's SyncStdout, not the real stdout)")
 	// the listener printed is the one served
